@@ -2,7 +2,9 @@ package main
 
 import (
 	"fmt"
+	"go/types"
 	"os"
+	"strings"
 
 	"golang.org/x/tools/go/ssa"
 )
@@ -82,4 +84,30 @@ func (ex *Exec) poolNewFromInit(obj int) *ssa.Function {
 		}
 	}
 	return nil
+}
+
+// linknameTarget: for a body-less package-level function (//go:linkname pull), the unique function
+// of the same name and signature in another package of the module that has a body.
+func (ex *Exec) linknameTarget(fn *ssa.Function) *ssa.Function {
+	if fn.Pkg == nil || fn.Signature.Recv() != nil {
+		return nil
+	}
+	if !strings.HasPrefix(fn.Pkg.Pkg.Path(), modPath) {
+		return nil
+	}
+	var found *ssa.Function
+	for _, p := range ex.Prog.AllPackages() {
+		if p == fn.Pkg || !strings.HasPrefix(p.Pkg.Path(), modPath) {
+			continue
+		}
+		g := p.Func(fn.Name())
+		if g == nil || g.Blocks == nil || !types.Identical(g.Signature, fn.Signature) {
+			continue
+		}
+		if found != nil {
+			return nil
+		}
+		found = g
+	}
+	return found
 }
